@@ -533,7 +533,14 @@ func firstFrames(stack string) string {
 
 func TestPropTerminates(t *testing.T) { hx.Check(t, 5000, genCase, runCase) }
 
-func TestReplay(t *testing.T) { hx.Replay(t, "TestPropTerminates", 20, runCase) }
+func TestReplay(t *testing.T) {
+	switch hx.ReplayTarget() {
+	case "TestPropUpstreamClose":
+		hx.Replay(t, "TestPropUpstreamClose", 5, runUpClose)
+	default:
+		hx.Replay(t, "TestPropTerminates", 20, runCase)
+	}
+}
 
 // Deterministic deadline-ordering scenario (the race the source used to comment on):
 // the reader's SetReadDeadline(idle) is held until the caller's SetReadDeadline(waiting
